@@ -4,6 +4,7 @@ import (
 	"fmt"
 	"go/constant"
 	"go/token"
+	"go/types"
 	"strings"
 
 	"golang.org/x/tools/go/ssa"
@@ -18,39 +19,21 @@ import (
 // parameters and from the (unchanged) builder. Field values of a helper are
 // translated into the caller's frame (parameters → arguments).
 func jpairSSA(p *core.Prog, build *ssa.Function) (decided bool, problems []string) {
-	var arr *ssa.Alloc
+	var elemsList []ssa.Value
+	found := false
 	core.EachInstr(build, func(ins ssa.Instruction) {
 		ret, ok := ins.(*ssa.Return)
-		if !ok || len(ret.Results) != 1 {
+		if !ok || len(ret.Results) != 1 || found {
 			return
 		}
-		if sl, ok := core.Strip(ret.Results[0]).(*ssa.Slice); ok {
-			if al, ok := sl.X.(*ssa.Alloc); ok {
-				arr = al
-			}
+		if es, ok := sliceElems(ret.Results[0], 0); ok && len(es) == 2 {
+			elemsList, found = es, true
 		}
 	})
-	if arr == nil || arr.Referrers() == nil {
+	if !found {
 		return false, nil
 	}
-	elems := map[int64]ssa.Value{}
-	for _, r := range *arr.Referrers() {
-		ia, ok := r.(*ssa.IndexAddr)
-		if !ok {
-			continue
-		}
-		idx, ok := ia.Index.(*ssa.Const)
-		if !ok || idx.Value == nil {
-			return false, nil
-		}
-		i, _ := constant.Int64Val(idx.Value)
-		for _, st := range core.StoresTo(ia) {
-			elems[i] = st.Val
-		}
-	}
-	if len(elems) != 2 || elems[0] == nil || elems[1] == nil {
-		return false, nil
-	}
+	elems := map[int64]ssa.Value{0: elemsList[0], 1: elemsList[1]}
 	// a field value in the caller's frame: an SSA value of build, or a symbolic
 	// name for something the helper reads from its receiver
 	type fval struct {
@@ -230,4 +213,77 @@ func describeFval(p *core.Prog, v ssa.Value, sym string) string {
 		return sym
 	}
 	return strings.TrimSpace(sym + " " + describeValue(p, v))
+}
+
+// sliceElems lists the elements of a slice value that is built in place: a
+// composite literal, or appends of explicit elements to an empty slice.
+func sliceElems(v ssa.Value, depth int) ([]ssa.Value, bool) {
+	v = core.Strip(v)
+	if depth > 8 {
+		return nil, false
+	}
+	switch x := v.(type) {
+	case *ssa.Const:
+		if x.Value == nil {
+			return nil, true
+		}
+	case *ssa.MakeSlice:
+		if constInt(x.Len, 0) {
+			return nil, true
+		}
+	case *ssa.Slice:
+		// make([]T, 0, n): a fresh array sliced to length zero
+		if x.Low == nil && x.High != nil && constInt(x.High, 0) {
+			if _, ok := x.X.(*ssa.Alloc); ok {
+				return nil, true
+			}
+		}
+		if x.Low != nil || x.High != nil {
+			return nil, false
+		}
+		al, ok := x.X.(*ssa.Alloc)
+		if !ok || al.Referrers() == nil {
+			return nil, false
+		}
+		pt, ok := al.Type().Underlying().(*types.Pointer)
+		if !ok {
+			return nil, false
+		}
+		at, ok := pt.Elem().Underlying().(*types.Array)
+		if !ok {
+			return nil, false
+		}
+		res := make([]ssa.Value, at.Len())
+		for _, r := range *al.Referrers() {
+			ia, ok := r.(*ssa.IndexAddr)
+			if !ok {
+				continue
+			}
+			idx, ok := ia.Index.(*ssa.Const)
+			if !ok || idx.Value == nil {
+				return nil, false
+			}
+			i, _ := constant.Int64Val(idx.Value)
+			for _, st := range core.StoresTo(ia) {
+				if i >= 0 && i < int64(len(res)) {
+					res[i] = st.Val
+				}
+			}
+		}
+		for _, e := range res {
+			if e == nil {
+				return nil, false
+			}
+		}
+		return res, true
+	case *ssa.Call:
+		if b, ok := x.Call.Value.(*ssa.Builtin); ok && b.Name() == "append" && len(x.Call.Args) == 2 {
+			base, ok1 := sliceElems(x.Call.Args[0], depth+1)
+			more, ok2 := sliceElems(x.Call.Args[1], depth+1)
+			if ok1 && ok2 {
+				return append(append([]ssa.Value{}, base...), more...), true
+			}
+		}
+	}
+	return nil, false
 }
